@@ -31,7 +31,15 @@ class RulerCtor(Contract):
                 ('len', {'C17'}, cx.len('this._data') == steps),
                 ('affine', {'C03', 'C04', 'C09'}, Implies(And(g >= 0, g < steps), cx.sel('this._data', g) == mn + z3.ToReal(g) * r['delta'])),
                 # the zero bin is where the axis passes through 0, wherever the grid is centred
-                ('zerobin', {'C03', 'C04'}, mn + r['zb'] * r['delta'] == 0)]
+                ('zerobin', {'C03', 'C04'}, mn + r['zb'] * r['delta'] == 0),
+                # the unit-scale table is the one handed in (C10: unit factors of the results file; C03/C05: metres and eV of the kicks)
+                ('scale_table', {'C10', 'C03', 'C05'}, self.scale_copied(cx))]
+
+    def scale_copied(self, cx):
+        a = cx.args.get('scale')
+        if not isinstance(a, ObjRef):
+            return z3.BoolVal(True)         # defaulted (empty table): nothing to say about any key
+        return And(*[cx.rf(f'this._scale[{K}]') == cx.old.rf(f'{a.name}[{K}]') for K in models.SCALE_KEYS])
 
     def _inv(self, cx):
         i, g = cx.v('i'), cx.g('g')
@@ -825,7 +833,8 @@ def same_ruler(cx, a, b):
     fa, fb = ruler_fields(cx, a), ruler_fields(cx.old, b)
     k = cx.g('k')
     return And(*[fa[f] == fb[f] for f in ('steps', 'mn', 'mx', 'delta', 'zb')], cx.len(a + '._data') == cx.old.len(b + '._data'),
-               cx.sel(a + '._data', k) == cx.old.sel(b + '._data', k))
+               cx.sel(a + '._data', k) == cx.old.sel(b + '._data', k),
+               *[cx.rf(f'{a}._scale[{K}]') == cx.old.rf(f'{b}._scale[{K}]') for K in models.SCALE_KEYS])
 
 
 def ps_ctor_posts(cx, data_region=None, data_off=None, shares_region=None, axes_obj=None):
@@ -952,6 +961,9 @@ class PhaseSpaceCtor12(Contract):
                         cx.len('this._axis[0]._data') == nx, cx.len('this._axis[1]._data') == ny,
                         Implies(And(k >= 0, k < nx), cx.sel('this._axis[0]._data', k) == cx.a('qmin') + z3.ToReal(k) * r0['delta']),
                         Implies(And(k >= 0, k < ny), cx.sel('this._axis[1]._data', k) == cx.a('pmin') + z3.ToReal(k) * r1['delta']))))
+        # unit factors: position axis in metres per natural bunch length, energy axis in eV per natural energy spread, bunch charge
+        # and current — the values the results file attaches to its datasets are read back from exactly these members (C10)
+        out.append(('unit_factors', {'C10', 'C03', 'C05'}, And(cx.rf('this._axis[0]._scale[Meter]') == cx.a('qscale'), cx.rf('this._axis[1]._scale[ElectronVolt]') == cx.a('pscale'))))
         return out
 
 
